@@ -99,6 +99,8 @@ def gen_bio(rng):
 
 
 def register(reg):
+    # index of cell (a, b, 0) in the flattened n*n*3 cost table; opaque so that lemma proofs see no non-linear arithmetic
+    reg.spec("def IDX(n, a, b):\n    return 3*n*a + 3*b", dict(n=Int, a=Int, b=Int), Int, opaque=True)
     # ------------------------------------------------------------------------------------------------------------------
     # witness of density after _change_bucket: which element has new bucket id b
     reg.spec("def chg_wit(wit, mate, old_pos, alone, b):\n"
@@ -259,14 +261,14 @@ def register(reg):
     # _compute_delta_costs: the two difference arrays in linear form (one summand per other element e2)
     A9 = dict(r=Arr(Int), c=Arr(Real), t=Int, B=Int, n=Int, e2=Int, k=Int)
     reg.spec("def ch(r, c, t, B, n, e2, k):\n"
-             "    return (ite(k == r[e2], c[3*n*t + 3*e2 + 2] - c[3*n*t + 3*e2], 0.0)"
-             "            + ite(k == r[e2] + 1, c[3*n*t + 3*e2 + 1] - c[3*n*t + 3*e2 + 2], 0.0)) if B < r[e2] else"
-             "           ((ite(k == r[e2], c[3*n*t + 3*e2 + 2] - c[3*n*t + 3*e2 + 1], 0.0)"
-             "             + ite(r[e2] != 0 and k == r[e2] - 1, c[3*n*t + 3*e2] - c[3*n*t + 3*e2 + 2], 0.0)) if B > r[e2] else 0.0)",
+             "    return (ite(k == r[e2], c[IDX(n, t, e2) + 2] - c[IDX(n, t, e2)], 0.0)"
+             "            + ite(k == r[e2] + 1, c[IDX(n, t, e2) + 1] - c[IDX(n, t, e2) + 2], 0.0)) if B < r[e2] else"
+             "           ((ite(k == r[e2], c[IDX(n, t, e2) + 2] - c[IDX(n, t, e2) + 1], 0.0)"
+             "             + ite(r[e2] != 0 and k == r[e2] - 1, c[IDX(n, t, e2)] - c[IDX(n, t, e2) + 2], 0.0)) if B > r[e2] else 0.0)",
              A9, Real)
     reg.spec("def ad(r, c, t, B, n, e2, k):\n"
-             "    return ite(k == r[e2] + 1, c[3*n*t + 3*e2 + 1] - c[3*n*t + 3*e2], 0.0) if B < r[e2] else"
-             "           (ite(k == r[e2], c[3*n*t + 3*e2] - c[3*n*t + 3*e2 + 1], 0.0) if B > r[e2] else 0.0)",
+             "    return ite(k == r[e2] + 1, c[IDX(n, t, e2) + 1] - c[IDX(n, t, e2)], 0.0) if B < r[e2] else"
+             "           (ite(k == r[e2], c[IDX(n, t, e2)] - c[IDX(n, t, e2) + 1], 0.0) if B > r[e2] else 0.0)",
              A9, Real)
     A9m = dict(r=Arr(Int), c=Arr(Real), t=Int, B=Int, n=Int, m=Int, k=Int)
     reg.spec("def CH(r, c, t, B, n, m, k):\n    return 0.0 if m <= 0 else CH(r, c, t, B, n, m - 1, k) + ch(r, c, t, B, n, m - 1, k)",
@@ -277,7 +279,7 @@ def register(reg):
     # TIE(.., m, w): sum over bucket mates e2 < m of cost cell w (0 before, 1 after, 2 tied) of the pair (t, e2)
     reg.spec("def TIE(r, c, t, B, n, m, w):\n"
              "    return 0.0 if m <= 0 else TIE(r, c, t, B, n, m - 1, w) + "
-             "ite(r[m - 1] == B and m - 1 != t, c[3*n*t + 3*(m - 1) + w], 0.0)", A8, Real)
+             "ite(r[m - 1] == B and m - 1 != t, c[IDX(n, t, m - 1) + w], 0.0)", A8, Real)
 
     reg.contract(
         F + "_compute_delta_costs", props=["C08", "C09"],
@@ -326,7 +328,7 @@ def register(reg):
     # score of a bucket-id vector against the flattened cost table:  SC = sum over pairs a < b of the cell selected
     # by comparing the two bucket ids (0 before, 1 after, 2 tied).  `o` is an offset into a flattened matrix of rows.
     reg.spec("def relcell(r, o, c, n, a, b):\n"
-             "    return c[3*n*a + 3*b + ite(r[o + a] < r[o + b], 0, ite(r[o + a] > r[o + b], 1, 2))]",
+             "    return c[IDX(n, a, b) + ite(r[o + a] < r[o + b], 0, ite(r[o + a] > r[o + b], 1, 2))]",
              dict(r=Arr(Int), o=Int, c=Arr(Real), n=Int, a=Int, b=Int), Real)
     reg.spec("def SCrow(r, o, c, n, a, m):\n"
              "    return 0.0 if m <= a + 1 else SCrow(r, o, c, n, a, m - 1) + relcell(r, o, c, n, a, m - 1)",
@@ -338,7 +340,7 @@ def register(reg):
     # arithmetic facts (non-linear), proved once and invoked as lemma calls at loop heads
     reg.lemma("mul_mono", dict(i=Int, nb=Int, n=Int), "i * n >= 0 and i * n + n <= nb * n", props=["C04", "C08", "C09"],
               requires={"i": "0 <= i < nb", "n": "n >= 0"})
-    reg.lemma("idx_bound", dict(a=Int, b=Int, n=Int), "3*n*a + 3*b >= 0 and 3*n*a + 3*b + 2 < 3*n*n",
+    reg.lemma("idx_bound", dict(a=Int, b=Int, n=Int), "IDX(n, a, b) >= 0 and IDX(n, a, b) + 2 < 3*n*n",
               props=["C04", "C08", "C09"], requires={"a": "0 <= a < n", "b": "0 <= b < n"})
 
     reg.lemma("nl_bound", dict(n=Int, t=Int), "n * t <= n * (n - 1) and n * t >= 0", props=["C08", "C09", "C04"],
@@ -427,7 +429,9 @@ def register(reg):
         ghost_vars={"wit": "wit0", "r0": "r"},
         ensures={
             "range": "forall(lambda j: 0 <= r[j] <= n - 1, 0, n)",
-            "dense": "forall(lambda b: implies(exists(lambda j: r[j] >= b, 0, n), exists(lambda j: r[j] == b, 0, n)), 0, n)",
+            # every id up to a used id is used (witnessed by the ghost array `wit`: the exists-form is the rt_only clause)
+            "dense": "forall(lambda b: implies(exists(lambda j: r[j] >= b, 0, n), 0 <= wit[b] and wit[b] < n and r[wit[b]] == b), "
+                     "0, n)",
             "nonpos": "result <= 0",
             # no single-element move gains more than the 0.001 threshold (difference-array form; the link between the
             # cumulated differences and the score difference is the delta lemma, see `assumed` and DESIGN)
@@ -496,6 +500,8 @@ def register(reg):
             "_change_bucket": {"wit": "lam(lambda b: chg_wit(wit, g_mate, bucket_elem, alone, b))"},
             "_add_bucket": {"wit": "lam(lambda b: add_wit(wit, g_mate, elem, bucket_elem, to, alone, b))"},
         },
+        rt_only={"dense_exists": "forall(lambda b: implies(exists(lambda j: r[j] >= b, 0, n), "
+                                 "exists(lambda j: r[j] == b, 0, n)), 0, n)"},
         gen=lambda rng: gen_improve(rng),
     )
 
@@ -606,15 +612,15 @@ def register_delta_lemmas(reg):
     reg.spec("def rel(a, b):\n    return 0 if a < b else (1 if a > b else 2)", dict(a=Int, b=Int), Int)
     # what moving t into bucket x changes for the pair (t, e2)
     reg.spec("def dj(r, c, t, n, e2, x):\n"
-             "    return 0.0 if e2 == t else c[3*n*t + 3*e2 + rel(x, r[e2])] - c[3*n*t + 3*e2 + rel(r[t], r[e2])]", A, Real)
+             "    return 0.0 if e2 == t else c[IDX(n, t, e2) + rel(x, r[e2])] - c[IDX(n, t, e2) + rel(r[t], r[e2])]", A, Real)
     reg.spec("def DJS(r, c, t, n, m, x):\n    return 0.0 if m <= 0 else DJS(r, c, t, n, m - 1, x) + dj(r, c, t, n, m - 1, x)",
              Am, Real)
     # ---- to the right of the own bucket
     reg.spec("def SCHE(r, c, t, n, e2, x):\n"
              "    return 0.0 if x <= r[t] else SCHE(r, c, t, n, e2, x - 1) + ch(r, c, t, r[t], n, e2, x)", A, Real)
     reg.spec("def closedJ(r, c, t, n, e2, x):\n"
-             "    return (ite(r[e2] <= x, c[3*n*t + 3*e2 + 2] - c[3*n*t + 3*e2], 0.0) + "
-             "ite(r[e2] + 1 <= x, c[3*n*t + 3*e2 + 1] - c[3*n*t + 3*e2 + 2], 0.0)) if r[t] < r[e2] else 0.0", A, Real)
+             "    return (ite(r[e2] <= x, c[IDX(n, t, e2) + 2] - c[IDX(n, t, e2)], 0.0) + "
+             "ite(r[e2] + 1 <= x, c[IDX(n, t, e2) + 1] - c[IDX(n, t, e2) + 2], 0.0)) if r[t] < r[e2] else 0.0", A, Real)
     reg.lemma("J_point", A, "SCHE(r, c, t, n, e2, x) == closedJ(r, c, t, n, e2, x)", props=DL, induction="x", base="r[t]")
     reg.spec("def SCH(r, c, t, n, m, x):\n"
              "    return 0.0 if x <= r[t] else SCH(r, c, t, n, m, x - 1) + CH(r, c, t, r[t], n, m, x)", Am, Real)
@@ -637,10 +643,10 @@ def register_delta_lemmas(reg):
               "SR_CH(r, c, t, n, x) == DJS(r, c, t, n, n, x)", props=DL, requires={"x": "x > r[t]", "n": "n >= 0"},
               hints=["J_tail(r, c, t, n, x)", "J_exchange(r, c, t, n, n, x)", "J_sem(r, c, t, n, n, x)"])
 
-    P = "c[3*n*t + 3*e2%s]"
+    P = "c[IDX(n, t, e2)%s]"
     # what putting t alone in a new bucket at position x (before old bucket x) changes for the pair (t, e2)
     reg.spec("def da(r, c, t, n, e2, x):\n"
-             "    return 0.0 if e2 == t else c[3*n*t + 3*e2 + ite(r[e2] < x, 1, 0)] - c[3*n*t + 3*e2 + rel(r[t], r[e2])]", A, Real)
+             "    return 0.0 if e2 == t else c[IDX(n, t, e2) + ite(r[e2] < x, 1, 0)] - c[IDX(n, t, e2) + rel(r[t], r[e2])]", A, Real)
     reg.spec("def DAS(r, c, t, n, m, x):\n    return 0.0 if m <= 0 else DAS(r, c, t, n, m - 1, x) + da(r, c, t, n, m - 1, x)",
              Am, Real)
     L5 = dict(r=Arr(Int), c=Arr(Real), t=Int, n=Int, x=Int)
@@ -730,12 +736,12 @@ def register_pairsum_lemmas(reg):
     PL = ["C04", "C08", "C09"]
     # mirror consistency of the flattened cost table for the pair (a, t)   (opaque: used as a trigger)
     reg.spec("def MIRP(c, n, t, a):\n"
-             "    return c[3*n*a + 3*t] == c[3*n*t + 3*a + 1] and c[3*n*a + 3*t + 1] == c[3*n*t + 3*a] and "
-             "c[3*n*a + 3*t + 2] == c[3*n*t + 3*a + 2]", dict(c=Arr(Real), n=Int, t=Int, a=Int), Bool, opaque=True)
+             "    return c[IDX(n, a, t)] == c[IDX(n, t, a) + 1] and c[IDX(n, a, t) + 1] == c[IDX(n, t, a)] and "
+             "c[IDX(n, a, t) + 2] == c[IDX(n, t, a) + 2]", dict(c=Arr(Real), n=Int, t=Int, a=Int), Bool, opaque=True)
     Q = dict(q=Arr(Int), r=Arr(Int), c=Arr(Real), t=Int, n=Int)
     # change of the cost of the pair (t, e2) between r and q
     reg.spec("def dq(q, r, c, t, n, e2):\n"
-             "    return 0.0 if e2 == t else c[3*n*t + 3*e2 + rel(q[t], q[e2])] - c[3*n*t + 3*e2 + rel(r[t], r[e2])]",
+             "    return 0.0 if e2 == t else c[IDX(n, t, e2) + rel(q[t], q[e2])] - c[IDX(n, t, e2) + rel(r[t], r[e2])]",
              dict(Q, e2=Int), Real)
     # the relations among the elements other than t are the same in q and r   (opaque predicate, trigger)
     reg.spec("def SAMEREL(q, r, t, a, b):\n"
